@@ -178,4 +178,53 @@ def outputs (ctx : Env) : Env → Env
   | [] => []
   | (k, v) :: rest => if lookup ctx k = some v then outputs ctx rest else (k, v) :: outputs ctx rest
 
+/-! ### The statement language as `ast` trees: the head (validation) and the tail together -/
+
+def Ex.toNode (l : Nat) : Ex → Node Kind
+  | .lit _ => .mk .Constant l []
+  | .noneLit => .mk .Constant l []
+  | .var _ => .mk .Name l [.mk .Load l []]
+  | .add a b => .mk .BinOp l [a.toNode l, .mk .Add l [], b.toNode l]
+  | .print e => .mk .Call l [.mk .Name l [.mk .Load l []], e.toNode l]
+
+def Stmt.toNode (l : Nat) : Stmt → Node Kind
+  | .assign ts e => .mk .Assign l (ts.map (fun _ => Node.mk Kind.Name l [.mk .Store l []]) ++ [e.toNode l])
+  | .expr e => .mk .Expr l [e.toNode l]
+  | .aug _ e => .mk .AugAssign l [.mk .Name l [.mk .Store l []], .mk .Add l [], e.toNode l]
+  | .pass => .mk .Pass l []
+
+/-- statements numbered from line `l` on (one statement per line, as the harness renders them). -/
+def nodesFrom (l : Nat) : List Stmt → List (Node Kind)
+  | [] => []
+  | st :: rest => st.toNode l :: nodesFrom (l + 1) rest
+
+def moduleOf (prog : List Stmt) : Node Kind := .mk .Module 0 (nodesFrom 1 prog)
+
+def Ex.hasCall : Ex → Bool
+  | .add a b => a.hasCall || b.hasCall
+  | .print _ => true
+  | _ => false
+
+def Stmt.hasCall : Stmt → Bool
+  | .assign _ e => e.hasCall
+  | .expr e => e.hasCall
+  | .aug _ e => e.hasCall
+  | .pass => false
+
+def Stmt.assigns : Stmt → Bool
+  | .assign _ _ => true
+  | .aug _ _ => true
+  | _ => false
+
+inductive Full where
+  | rejected (line : Nat)                       -- CodeError from parsing; nothing was executed
+  | ran (r : Except Err (Option Res))
+  deriving Repr
+
+/-- `evaluate(code, global_vars=ctx, permission=explicit)` inside the scope state `slot`. -/
+def evaluateFull (explicit : Option PermSet) (slot : Slot) (prog : List Stmt) (ctx : Env) : Full :=
+  match evaluateHead gate effectiveRule explicit slot (moduleOf prog) with
+  | .rejected l => .rejected l
+  | .runs => .ran (evaluate prog ctx)
+
 end Pg.C19.Tail
